@@ -473,8 +473,9 @@ func (w *World) collect() {
 			c.rx = c.rx[n:]
 			w.res.Seq++
 			isMsg := c.prog.Role == "subscriber" && v.Kind == rd.Array && len(v.Arr) > 0 && v.Arr[0].StringLike() && string(v.Arr[0].Str) == "message"
-			if isMsg || c.pushMode || len(c.waiting) == 0 {
-				if c.pushMode && !isMsg && v.Kind == rd.Array && len(v.Arr) > 0 && v.Arr[0].StringLike() && string(v.Arr[0].Str) == "subscribe" {
+			isSubConfirm := c.pushMode && !isMsg && v.Kind == rd.Array && len(v.Arr) > 0 && v.Arr[0].StringLike() && string(v.Arr[0].Str) == "subscribe"
+			if isMsg || isSubConfirm || len(c.waiting) == 0 {
+				if isSubConfirm {
 					// further subscription confirmations (one per channel) are not messages
 					continue
 				}
